@@ -611,8 +611,12 @@ class DictConverter(t.Generic[FromDataK, FromDataV], Converter[t.Mapping[FromDat
             def _v_into_data(v: t.Any) -> DataType:
                 return self.v_conv.into_data(v)
 
+        def _hashable(k: t.Any) -> t.Any:
+            # keys must stay hashable: write a sequence-valued key (e.g. a frozenset) as a tuple
+            return tuple(map(_hashable, k)) if isinstance(k, (list, tuple)) else k
+
         return {
-            _k_into_data(k): _v_into_data(v)
+            _hashable(_k_into_data(k)): _v_into_data(v)
             for (k, v) in t.cast(t.Mapping[FromDataK, FromDataV], val).items()
         }
 
